@@ -137,8 +137,9 @@ KIND = {1: "access trace differs from the model at step %s", 2: "the bytes offer
 def instrument_stream():
     """stream.go instrumented by go/verisched (atomics) plus, textually on the instrumented copy: the pendingData
     mutex as a scheduling point (r.Lock()/r.Unlock() in the methods of *pendingData, s.pendingData.Lock()/Unlock()
-    -> vsLock/vsUnlock) and a scheduling point in front of every element access of the walks over
-    pendingData.unread (c20Walk(i) at the head of each `for i := range [r.]unread` loop).  Returns (overlay, error)."""
+    -> vsLock/vsUnlock), a scheduling point in front of every element access of the walks over
+    pendingData.unread (c20Walk(i) at the head of each `for i := range [r.]unread` loop) and one in front of
+    asyncGoroutineWg.Add(1) (mark 14).  Returns (overlay, error)."""
     ov, rep, err = sched.instrument(["stream.go"])
     if err:
         return None, err
@@ -160,6 +161,10 @@ def instrument_stream():
     src, k5 = re.subn(r"(for i := range (?:\w+\.)?unread \{)", r"\1\n\t\tc20Walk(i)", src)
     if k5 < 2:
         return None, "cannot find the walks over pendingData.unread in stream.go (found %d loops)" % k5
+    # a scheduling point between winning callbackInProcess and asyncGoroutineWg.Add(1) (close()'s Wait can fall in between)
+    src, k6 = re.subn(r"(\n\s*)(vsWgAdd\(&s\.asyncGoroutineWg, 1\))", r"\1c20Mark(14)\1\2", src)
+    if k6 < 1:
+        return None, "cannot find asyncGoroutineWg.Add(1) in stream.go"
     d = os.path.join(core.WORK, "inst_c20_" + core.tree_hash())
     os.makedirs(d, exist_ok=True)
     p = os.path.join(d, "stream.go")
@@ -228,6 +233,15 @@ def check(run):
         kinds[c["kind"]] = kinds.get(c["kind"], 0) + 1
         s = re.sub(r"\(.*", "", c["strat"])
         strat[s] = strat.get(s, 0) + 1
+    # real-pair family (probabilistic support): numbered multi-slice messages, continuous sender, pausing callback
+    tcases, _, terr = run_harness("TestVerif_C20T", "C20", 3 if quick else 40, run.seed, run.tier + "t")
+    if terr:
+        run.add_corr_break("T: " + terr)
+    for c in tcases or []:
+        for m in c.get("oracle") or []:
+            run.add_oracle_failure("C20:real-pair:" + re.sub(r"\d+", "#", m)[:60], m, c)
+    run.coverage["real_pair_rounds"] = len([c for c in (tcases or []) if not c.get("skipped")])
+    run.coverage["real_pair_messages"] = sum(c.get("got", 0) for c in (tcases or []))
     cmp_cases = [c for c in cases if c.get("cmp") and c.get("steps") is not None]
     if cmp_cases:
         try:
